@@ -424,6 +424,22 @@ def transpile(sql, src, dst):
 
 def check_item(item):
     q, (src, dst) = item
+    if src == "athena~trino":
+        res = {"status": "evaluated", "violations": [], "evals": 1, "nontrivial": 1}
+        import logging as _lg
+
+        _lg.getLogger("sqlglot").setLevel(_lg.CRITICAL)
+        outs = {}
+        for r in ("athena", "trino"):
+            try:
+                outs[r] = sqlglot.transpile(q["sql"], read=r, write=dst)
+            except E.SqlglotError as e:
+                outs[r] = f"{type(e).__name__}"
+        if outs["athena"] != outs["trino"]:
+            res["violations"].append({"key": f"c02:athena-vs-trino-{dst}:{q['family']}:{q['shape']}:text",
+                                      "what": f"{q['sql']!r} read as athena -> {outs['athena']!r}, read as trino -> {outs['trino']!r}",
+                                      "input": {"sql": q["sql"], "src": "athena~trino", "dst": dst, "db": 0, "ordered": q["ordered"]}})
+        return res
     sql = q["sql"][src] if isinstance(q["sql"], dict) else q["sql"]
     res = {"status": "evaluated", "violations": [], "evals": 0, "nontrivial": 0}
     base = f"c02:{src}-{dst}:{q['family']}:{q['shape']}"
@@ -493,6 +509,11 @@ def items_for(tier):
             sql = q["sql"][pair[0]] if isinstance(q["sql"], dict) else q["sql"]
             if sql:
                 out.append((q, pair))
+        # Athena runs its queries on Trino (sqlglot's Athena dialect itself hands SELECTs to its Trino parser): read as athena, a
+        # query must translate exactly as when it is read as trino, into every target
+        if isinstance(q["sql"], str) and q["family"].startswith("order"):
+            for w in ("sqlite", "duckdb", "mysql", "postgres"):
+                out.append((q, ("athena~trino", w)))
     return out
 
 
@@ -548,6 +569,9 @@ def replay(entry):
     ACTIVE_DBS = DBS_THOROUGH  # DBS is a prefix of it, so instance numbers of either tier resolve
     _ENG.clear()
     i = entry["input"] if "input" in entry else entry
+    if i["src"] == "athena~trino":
+        a, b = (sqlglot.transpile(i["sql"], read=r, write=i["dst"]) for r in ("athena", "trino"))
+        return {"violated": a != b, "observed": f"read as athena -> {a!r}; read as trino -> {b!r}"}
     st, out = transpile(i["sql"], i["src"], i["dst"])
     if st == "unsupported":
         return {"violated": False, "observed": "unsupported: " + out}
